@@ -126,4 +126,61 @@ theorem noticeElapsedProposers_listing : Gen.Keys.noticeElapsedProposersListing 
   ["func (k Keeper) NoticeElapsedProposers(ctx sdk.Context, endTime time.Time) ([]types.Sequencer, error)",
    "  return k.NoticeQueue(ctx, &endTime)"] := rfl
 
+-- buy-order ids ---------------------------------------------------------------------------------------
+
+theorem buyOrderIdTypeDymNamePrefix_eq : Gen.Keys.buyOrderIdTypeDymNamePrefix = buyOrderIdPrefix .name := rfl
+theorem buyOrderIdTypeAliasPrefix_eq : Gen.Keys.buyOrderIdTypeAliasPrefix = buyOrderIdPrefix .alias := rfl
+
+/-- the validator `Keys.parseBuyOrderId` / `Keys.isValidBuyOrderId` was written against -/
+theorem isValidBuyOrderId_listing : Gen.Keys.isValidBuyOrderIdListing =
+  ["func IsValidBuyOrderId(id string) bool",
+   "  if len(id) < 3",
+   "    return false",
+   "  switch id[:2]",
+   "    case BuyOrderIdTypeDymNamePrefix",
+   "    case BuyOrderIdTypeAliasPrefix",
+   "    default",
+   "      return false",
+   "  ui, err := strconv.ParseUint(id[2:], 10, 64)",
+   "  return err == nil && ui > 0"] := rfl
+
+/-- the constructor `Keys.createBuyOrderId` was written against -/
+theorem createBuyOrderId_listing : Gen.Keys.createBuyOrderIdListing =
+  ["func CreateBuyOrderId(_type AssetType, i uint64) string",
+   "  var prefix string",
+   "  switch _type",
+   "    case TypeName",
+   "      prefix = BuyOrderIdTypeDymNamePrefix",
+   "    case TypeAlias",
+   "      prefix = BuyOrderIdTypeAliasPrefix",
+   "    default",
+   "      panic()",
+   "  buyOrderId := prefix + math.NewIntFromUint64(i).String()",
+   "  if !IsValidBuyOrderId(buyOrderId)",
+   "    panic()",
+   "  return buyOrderId"] := rfl
+
+-- IRO denoms and plan keys ------------------------------------------------------------------------------
+
+theorem iroDenom_eq : Gen.Keys.iRODenom = iroDenom := by funext r; rfl
+theorem iroTokenPrefix_eq : Gen.Keys.iROTokenPrefix = iroTokenPrefix := rfl
+theorem planKey_eq : Gen.Keys.planKey = planKey := by funext r; simp [Gen.Keys.planKey, planKey, sep]
+theorem plansByRollappKey_eq : Gen.Keys.plansByRollappKey = plansByRollappKey := by
+  funext r; simp [Gen.Keys.plansByRollappKey, plansByRollappKey, sep]
+theorem lastPlanIdKey_eq : Gen.Keys.lastPlanIdKey = [3] := rfl
+theorem iroParamsKey_eq : Gen.Keys.iroParamsKey = [4] := rfl
+
+theorem rollappIDFromIRODenom_listing : Gen.Keys.rollappIDFromIRODenomListing =
+  ["func RollappIDFromIRODenom(denom string) (string, bool)",
+   "  return strings.CutPrefix(denom, IROTokenPrefix)"] := rfl
+
+/-- plans are keyed by the decimal rendering of their id (`Keys.planKeyById`) -/
+theorem setPlan_listing : Gen.Keys.setPlanListing =
+  ["func (k Keeper) SetPlan(ctx sdk.Context, plan types.Plan)",
+   "  store := ctx.KVStore(k.storeKey)",
+   "  b := k.cdc.MustMarshal(&plan)",
+   "  store.Set(types.PlanKey(fmt.Sprintf(\"%d\", plan.Id)), b)",
+   "  planByRollappKey := types.PlansByRollappKey(plan.RollappId)",
+   "  store.Set(planByRollappKey, []byte(fmt.Sprintf(\"%d\", plan.Id)))"] := rfl
+
 end DymVerif.GenEq
